@@ -31,6 +31,8 @@ mod c08;
 mod c09;
 mod c10;
 mod c11;
+mod c12;
+mod c13;
 mod c14;
 mod c15;
 mod c16;
@@ -64,6 +66,8 @@ fn checks() -> Vec<Check> {
         Check { id: "C09", level: "exploration", run: c09::run, replay: c09::replay },
         Check { id: "C10", level: "fault_enumeration", run: c10::run, replay: c10::replay },
         Check { id: "C11", level: "exploration", run: c11::run, replay: c11::replay },
+        Check { id: "C12", level: "exploration", run: c12::run, replay: c12::replay },
+        Check { id: "C13", level: "fault_enumeration", run: c13::run, replay: c13::replay },
         Check { id: "C14", level: "model_checking", run: c14::run, replay: c14::replay },
         Check { id: "C15", level: "exploration", run: c15::run, replay: c15::replay },
         Check { id: "C16", level: "model_checking", run: c16::run, replay: c16::replay },
